@@ -98,6 +98,9 @@ func execSig(p *Program, cfg ExecCfg, ex *execState) uint64 {
 	for _, o := range cfg.Ops {
 		h = (h ^ simrt.HashString(o.String())) * 1099511628211
 	}
+	if cfg.RealReader {
+		h = (h ^ 0x5ea1) * 1099511628211
+	}
 	return (h ^ ex.sig) * 1099511628211
 }
 
